@@ -248,7 +248,12 @@ func (st *State) assumeWF(v Term, t types.Type) {
 		st.assume("(<= (+ (soff " + v + ") (scap " + v + ")) 1152921504606846976)")
 	case *types.Interface:
 		st.assume("(wfiface " + v + ")")
-	case *types.Pointer, *types.Map, *types.Chan:
+	case *types.Chan:
+		st.assume("(<= " + v + " " + st.alloc + ")")
+		// channels of different element types are different objects
+		st.fx.declare("chan.type", "(declare-const chan.type (Array Int Int))")
+		st.assume(fmt.Sprintf("(or (= %s 0) (= (select chan.type %s) %d))", v, v, st.fx.typeID(u.Elem())))
+	case *types.Pointer, *types.Map:
 		st.assume("(<= " + v + " " + st.alloc + ")")
 		_ = u
 	case *types.Signature:
